@@ -98,7 +98,7 @@ def execute(case) -> tuple[list[str], list[dict]]:
             engines.append(f"reg{i}={'1' if h.engine_data(i) is not None else '0'}\trun{i}={'-' if cur is None else cur.split('-')[1]}")
         out.append(f"{kind}\t" + "\t".join(engines) + f"\tplotlogs={rows(pls)}\trecentruns={rows(rrs)}")
         # for the oracle: the message, the reply it got, the run_id columns of the two tables
-        obs.append({"op": op, "reply_ok": kind == "ok", "plotlogs": [r for (_, r) in pls], "recentruns": [r for (_, r) in rrs]})
+        obs.append({"op": op, "reply_ok": kind == "ok", "reply": kind, "plotlogs": [r for (_, r) in pls], "recentruns": [r for (_, r) in rrs]})
     return out, obs
 
 
@@ -110,7 +110,9 @@ def impl(case) -> list[str]:
 # property oracle on the implementation's tables.  Independent of the Lean model AND of the implementation's own
 # bookkeeping: which run is open at an engine is the oracle's own ledger, kept from the messages and their replies:
 #   a RunStartedMsg r answered with success opens r (and ends the run that was open before, if it is another one);
-#   a RunStoppedMsg answered with success ends the open run; disconnect / register do not touch the ledger.
+#   a RunStoppedMsg answered with success ends the open run; disconnect / register do not touch the open run;
+#   an engine is registered from a successful RegisterEngineMsg until its disconnect: in that time every
+#   RunStartedMsg / RunStoppedMsg has to be answered with success (handler raising or error reply = failing input).
 
 def oracle(case, obs: list[dict]) -> list[Failure]:
     fails: list[Failure] = []
@@ -119,6 +121,7 @@ def oracle(case, obs: list[dict]) -> list[Failure]:
     prev_rr: list[str] = []
     open_run: dict[int, str | None] = {}
     away: dict[int, bool] = {}          # a disconnect happened since the open run was started
+    registered: dict[int, bool] = {}    # ledger: the engine's last RegisterEngineMsg succeeded and no disconnect followed
 
     def once(key: str, detail: str):
         if key not in seen:
@@ -139,8 +142,22 @@ def oracle(case, obs: list[dict]) -> list[Failure]:
         for r in set(o["recentruns"]):
             if o["recentruns"].count(r) > 1 and prev_rr.count(r) < o["recentruns"].count(r):
                 once(f"second-recent-run:{site}", f"op #{i} {op}: run {r} now has {o['recentruns'].count(r)} RecentRuns rows")
-        if op[0] == "disconnect" and open_run.get(e) is not None:
-            away[e] = True
+        if op[0] == "register" and o["reply_ok"]:
+            registered[e] = True
+        if op[0] == "disconnect":
+            registered[e] = False
+            if open_run.get(e) is not None:
+                away[e] = True
+        if op[0] in ("start", "stop") and registered.get(e) and not o["reply_ok"]:
+            # a well-formed run message of a registered engine must be handled; the only legitimate refusal is the
+            # error reply to an engine that is not registered (a stop without run data is answered with success)
+            handler = "handle_RunStartedMsg" if op[0] == "start" else "handle_RunStoppedMsg"
+            what = o.get("reply", "")
+            what = what[7:] if what.startswith("raised:") else "ErrorMessage"
+            once(f"run-message-not-handled:{handler}:{what}",
+                 f"op #{i} {op}: engine {e} is registered, but {handler} " +
+                 (f"raised {what}" if what != "ErrorMessage" else "answered with an error") +
+                 f": the {'start' if op[0] == 'start' else 'end'} of a run is lost to the run's records")
         if op[0] == "start" and o["reply_ok"]:
             r = rid(op[2])
             if r not in o["plotlogs"]:
